@@ -2,7 +2,8 @@ import WV.Model.C11
 
 /-!
 Generic (kernel-checked) part of the C11 certificates, same technique as `WV.Proofs.Cert` /
-`WV.Proofs.Closable` but over the two-sided Dilation system `WV.C11`:
+`WV.Proofs.Closable` but over the two-sided Dilation system `WV.C11`, for any bounded environment
+`p : Abs` (`absK`, `absS`):
 
 * `cert_sound`: a list that contains the initial states, is closed under every enabled event and on
   which every enabled step is safe contains every reachable state — induction on the run, no bound;
@@ -12,60 +13,76 @@ Generic (kernel-checked) part of the C11 certificates, same technique as `WV.Pro
 namespace WV.C11.Cert
 open WV.C11
 
-/-- states reachable by ANY finite sequence of enabled events (at most `K` links at a time) -/
-inductive Reach : Sys → Prop
-  | init {s} : s ∈ inits → Reach s
-  | step {s} (e : Event) : Reach s → enabledK s e = true → Reach (step s e).1
+/-- states reachable by ANY finite sequence of events enabled in the bounded environment `p` -/
+inductive ReachP (p : Abs) : Sys → Prop
+  | init {s} : s ∈ p.inits → ReachP p s
+  | step {s} (e : Event) : ReachP p s → enabledP p s e = true → ReachP p (step s e).1
 
-def certList (L : List Sys) : Bool :=
+abbrev Reach : Sys → Prop := ReachP absK
+
+def certList (p : Abs) (L : List Sys) : Bool :=
   let H : Std.HashSet Sys := Std.HashSet.ofList L
-  inits.all (fun s => H.contains s) &&
-  L.all (fun s => allEvents.all (fun e =>
-    !enabledK s e || (safeStep s e && H.contains (step s e).1)))
+  p.inits.all (fun s => H.contains s) &&
+  L.all (fun s => (allEventsP p).all (fun e =>
+    !enabledP p s e || (safeStep s e && H.contains (step s e).1)))
 
 theorem contains_ofList {L : List Sys} {s : Sys} (h : (Std.HashSet.ofList L).contains s = true) : s ∈ L := by
   rw [Std.HashSet.contains_ofList] at h
   simpa using h
 
-theorem link_lt_K {l : Nat} (h : l < K) : l = 0 ∨ l = 1 := by
-  unfold K at h; omega
+theorem mem_link {p : Abs} {l : Nat} (h : l < p.K) {e : Event} (he : e ∈ linkEvents l) : e ∈ allEventsP p := by
+  unfold allEventsP
+  apply List.mem_append_right
+  exact List.mem_flatMap.2 ⟨l, List.mem_range.2 h, he⟩
+
+theorem mem_side {p : Abs} {e : Event} (he : e ∈ sideEvents) : e ∈ allEventsP p := by
+  unfold allEventsP
+  exact List.mem_append_left _ he
 
 /-- every event that can ever be enabled is in the explored alphabet -/
-theorem enabledK_mem_allEvents (s : Sys) (e : Event) (h : enabledK s e = true) : e ∈ allEvents := by
+theorem enabledP_mem_allEvents (p : Abs) (s : Sys) (e : Event) (h : enabledP p s e = true) : e ∈ allEventsP p := by
   cases e with
-  | key x => cases x <;> decide
-  | vers x => cases x <;> decide
-  | dilate x => cases x <;> decide
-  | deliver x => cases x <;> decide
-  | connect x => cases x <;> decide
-  | turn1 x => cases x <;> decide
-  | sigrec x => cases x <;> decide
+  | key x => exact mem_side (by cases x <;> decide)
+  | vers x => exact mem_side (by cases x <;> decide)
+  | dilate x => exact mem_side (by cases x <;> decide)
+  | deliver x => exact mem_side (by cases x <;> decide)
+  | connect x => exact mem_side (by cases x <;> decide)
+  | turn1 x => exact mem_side (by cases x <;> decide)
+  | sigrec x => exact mem_side (by cases x <;> decide)
+  | write x => exact mem_side (by cases x <;> decide)
+  | tick x => exact mem_side (by cases x <;> decide)
   | hs l =>
-    simp only [enabledK, Bool.and_eq_true, decide_eq_true_eq] at h
-    rcases link_lt_K h.2 with rfl | rfl <;> decide
+    simp only [enabledP, Bool.and_eq_true, decide_eq_true_eq] at h
+    exact mem_link h.2 (by simp [linkEvents])
   | kcmf l =>
-    simp only [enabledK, Bool.and_eq_true, decide_eq_true_eq] at h
-    rcases link_lt_K h.2 with rfl | rfl <;> decide
+    simp only [enabledP, Bool.and_eq_true, decide_eq_true_eq] at h
+    exact mem_link h.2 (by simp [linkEvents])
   | kcml l =>
-    simp only [enabledK, Bool.and_eq_true, decide_eq_true_eq] at h
-    rcases link_lt_K h.2 with rfl | rfl <;> decide
+    simp only [enabledP, Bool.and_eq_true, decide_eq_true_eq] at h
+    exact mem_link h.2 (by simp [linkEvents])
   | lose x l =>
-    simp only [enabledK, Bool.and_eq_true, decide_eq_true_eq] at h
-    rcases link_lt_K h.2 with rfl | rfl <;> cases x <;> decide
+    simp only [enabledP, Bool.and_eq_true, decide_eq_true_eq] at h
+    exact mem_link h.2 (by cases x <;> simp [linkEvents])
+  | silence x l =>
+    simp only [enabledP, Bool.and_eq_true, decide_eq_true_eq] at h
+    exact mem_link h.2.2 (by cases x <;> simp [linkEvents])
+  | more x l =>
+    simp only [enabledP, Bool.and_eq_true, decide_eq_true_eq] at h
+    exact mem_link h.2.2 (by cases x <;> simp [linkEvents])
 
-theorem cert_sound {L : List Sys} (hc : certList L = true) :
-    ∀ s, Reach s → s ∈ L ∧ ∀ e, enabledK s e = true → safeStep s e = true := by
+theorem cert_sound {p : Abs} {L : List Sys} (hc : certList p L = true) :
+    ∀ s, ReachP p s → s ∈ L ∧ ∀ e, enabledP p s e = true → safeStep s e = true := by
   unfold certList at hc
   simp only [Bool.and_eq_true, List.all_eq_true] at hc
   obtain ⟨hinit, hclosed⟩ := hc
-  have key : ∀ s, s ∈ L → ∀ e, enabledK s e = true →
+  have key : ∀ s, s ∈ L → ∀ e, enabledP p s e = true →
       safeStep s e = true ∧ (step s e).1 ∈ L := by
     intro s hs e he
-    have hmem := enabledK_mem_allEvents s e he
+    have hmem := enabledP_mem_allEvents p s e he
     have := hclosed s hs e hmem
     simp only [he, Bool.not_true, Bool.false_or, Bool.and_eq_true] at this
     exact ⟨this.1, contains_ofList this.2⟩
-  have inL : ∀ s, Reach s → s ∈ L := by
+  have inL : ∀ s, ReachP p s → s ∈ L := by
     intro s hr
     induction hr with
     | init hs => exact contains_ofList (hinit _ hs)
@@ -74,33 +91,35 @@ theorem cert_sound {L : List Sys} (hc : certList L = true) :
   exact ⟨inL s hr, fun e he => (key s (inL s hr) e he).1⟩
 
 /-- there is a finite cooperative run from `s` to CONNECTED/CONNECTED on the two ends of one link -/
-inductive CanConverge : Sys → Prop
-  | here {s} : goal s = true → CanConverge s
-  | step {s} (e : Event) : coop s e = true → enabledK s e = true → CanConverge (step s e).1 → CanConverge s
+inductive CanConvergeP (p : Abs) : Sys → Prop
+  | here {s} : goal s = true → CanConvergeP p s
+  | step {s} (e : Event) : coop s e = true → enabledP p s e = true → CanConvergeP p (step s e).1 → CanConvergeP p s
 
-def grow (L : List Sys) (G : Std.HashSet Sys) : Std.HashSet Sys :=
+abbrev CanConverge : Sys → Prop := CanConvergeP absK
+
+def grow (p : Abs) (L : List Sys) (G : Std.HashSet Sys) : Std.HashSet Sys :=
   L.foldl (fun g s =>
     if g.contains s then g
-    else if allEvents.any (fun e => coop s e && enabledK s e && g.contains (step s e).1) then g.insert s else g) G
+    else if (allEventsP p).any (fun e => coop s e && enabledP p s e && g.contains (step s e).1) then g.insert s else g) G
 
-def iter : Nat → List Sys → Std.HashSet Sys → Std.HashSet Sys
+def iter (p : Abs) : Nat → List Sys → Std.HashSet Sys → Std.HashSet Sys
   | 0, _, G => G
   | n + 1, L, G =>
-    let G' := grow L G
-    if G'.size == G.size then G else iter n L G'      -- fixpoint reached: stop
+    let G' := grow p L G
+    if G'.size == G.size then G else iter p n L G'      -- fixpoint reached: stop
 
-def convergeCert (n : Nat) (L : List Sys) : Bool :=
-  let G := iter n L (Std.HashSet.ofList (L.filter goal))
+def convergeCert (p : Abs) (n : Nat) (L : List Sys) : Bool :=
+  let G := iter p n L (Std.HashSet.ofList (L.filter goal))
   L.all (fun s => G.contains s)
 
-def Good (G : Std.HashSet Sys) : Prop := ∀ s, G.contains s = true → CanConverge s
+def Good (p : Abs) (G : Std.HashSet Sys) : Prop := ∀ s, G.contains s = true → CanConvergeP p s
 
-theorem good_grow (L : List Sys) (G : Std.HashSet Sys) (hG : Good G) : Good (grow L G) := by
+theorem good_grow (p : Abs) (L : List Sys) (G : Std.HashSet Sys) (hG : Good p G) : Good p (grow p L G) := by
   unfold grow
-  suffices h : ∀ (l : List Sys) (g : Std.HashSet Sys), Good g →
-      Good (l.foldl (fun g s =>
+  suffices h : ∀ (l : List Sys) (g : Std.HashSet Sys), Good p g →
+      Good p (l.foldl (fun g s =>
         if g.contains s then g
-        else if allEvents.any (fun e => coop s e && enabledK s e && g.contains (step s e).1) then g.insert s else g) g) from
+        else if (allEventsP p).any (fun e => coop s e && enabledP p s e && g.contains (step s e).1) then g.insert s else g) g) from
     h L G hG
   intro l
   induction l with
@@ -119,30 +138,30 @@ theorem good_grow (L : List Sys) (G : Std.HashSet Sys) (hG : Good G) : Good (gro
         rcases hs with rfl | hs
         · simp only [List.any_eq_true, Bool.and_eq_true] at hany
           obtain ⟨e, _, ⟨hco, hen⟩, hin⟩ := hany
-          exact CanConverge.step e hco hen (hg _ hin)
+          exact CanConvergeP.step e hco hen (hg _ hin)
         · exact hg s hs
       · exact hg
 
-theorem good_iter (n : Nat) (L : List Sys) (G : Std.HashSet Sys) (hG : Good G) : Good (iter n L G) := by
+theorem good_iter (p : Abs) (n : Nat) (L : List Sys) (G : Std.HashSet Sys) (hG : Good p G) : Good p (iter p n L G) := by
   induction n generalizing G with
   | zero => simpa [iter] using hG
   | succ n ih =>
     simp only [iter]
     split
     · exact hG
-    · exact ih _ (good_grow L G hG)
+    · exact ih _ (good_grow p L G hG)
 
-theorem good_init (L : List Sys) : Good (Std.HashSet.ofList (L.filter goal)) := by
+theorem good_init (p : Abs) (L : List Sys) : Good p (Std.HashSet.ofList (L.filter goal)) := by
   intro s hs
   have := contains_ofList hs
   simp only [List.mem_filter] at this
-  exact CanConverge.here this.2
+  exact CanConvergeP.here this.2
 
-theorem converge_sound {n : Nat} {L : List Sys} (h : convergeCert n L = true) :
-    ∀ s, s ∈ L → CanConverge s := by
+theorem converge_sound {p : Abs} {n : Nat} {L : List Sys} (h : convergeCert p n L = true) :
+    ∀ s, s ∈ L → CanConvergeP p s := by
   intro s hs
   unfold convergeCert at h
   simp only [List.all_eq_true] at h
-  exact good_iter n L _ (good_init L) s (h s hs)
+  exact good_iter p n L _ (good_init p L) s (h s hs)
 
 end WV.C11.Cert
